@@ -139,6 +139,7 @@ struct Run<'a> {
     obs_all: Vec<(StepObs, Vec<Outcome>)>,
     boundaries: Vec<Boundary>,
     sticky_reported: bool,
+    renders_seen: usize,
     reap_slack: bool,
     defer_drops: bool,
     bridge_dups: bool,
@@ -337,8 +338,23 @@ impl Run<'_> {
                         if !sel.is_direct() || self.defer_drops {
                             self.deferred_drop = true;
                         }
-                        for m in self.cands.iter_mut() {
-                            m.drop_req(key);
+                        if sel.is_bridge() {
+                            // an undecodable response: "a rejected response affects at most the one
+                            // request it was addressed to" - whether that request is abandoned or stays
+                            // pending is left open, both continuations are followed
+                            cov.bump("fault:bridge_undecodable_response_to_one_shot");
+                            let mut both = vec![];
+                            for m in std::mem::take(&mut self.cands) {
+                                let mut d = m.clone();
+                                d.drop_req(key);
+                                both.push(d);
+                                both.push(m);
+                            }
+                            self.cands = both;
+                        } else {
+                            for m in self.cands.iter_mut() {
+                                m.drop_req(key);
+                            }
                         }
                     }
                 }
@@ -368,6 +384,7 @@ impl Run<'_> {
             self.host.settle()
         };
         cov.bump("sim_steps");
+        self.renders_seen += obs.effects.iter().filter(|e| e.op == super::model::OpName::Render).count();
         if let Some(e) = self.host.take_errors().into_iter().next() {
             return Err(viol(id, "bridge_invariant", format!("step {si}: {e}")));
         }
@@ -515,15 +532,32 @@ impl Run<'_> {
                     let count = |m: &Model, a: Arity| {
                         m.outstanding()
                             .iter()
-                            .filter(|o| o.arity == a && if a == Arity::Once { !o.resolved } else { o.rx_alive })
+                            .filter(|o| {
+                                o.arity == a
+                                    && match a {
+                                        Arity::Once | Arity::Never => !o.resolved,
+                                        Arity::Many => o.rx_alive,
+                                    }
+                            })
                             .count()
                     };
+                    let renders = self.renders_seen;
+                    if never > 0 && !self.cands.iter().any(|m| never <= count(m, Arity::Never) + renders) {
+                        // more than the unanswered notifications (those are the known finding below)
+                        return Err(viol(id, "registry_keeps:spent_entry", format!("step {si}: the bridge registry holds {never} entries that can never be resolved, the reference has {} unanswered notifications and {renders} renders: entries of requests that were answered (or whose answer was rejected) are kept", count(&self.cands[0], Arity::Never))));
+                    }
                     let m = &self.cands[0];
                     let open_once = count(m, Arity::Once);
                     let live_many = count(m, Arity::Many);
                     self.peak_outstanding = self.peak_outstanding.max(open_once + live_many);
                     if never > 0 {
                         cov.tolerate(viol(id, "registry_keeps:never", format!("step {si}: the bridge registry holds {never} notification entries, none of which can ever be resolved")))?;
+                    }
+                    let all_many = |m: &Model| m.outstanding().iter().filter(|o| o.arity == Arity::Many).count();
+                    if !self.cands.iter().any(|m| many <= all_many(m)) {
+                        // more stream entries than stream requests ever issued and not dropped (ended ones
+                        // are the known finding below)
+                        return Err(viol(id, "registry_keeps:unexplained_stream_entry", format!("step {si}: the bridge registry holds {many} stream entries, the reference knows of {} stream requests, live or ended", all_many(&self.cands[0]))));
                     }
                     if many > live_many && !self.cands.iter().any(|m| many <= count(m, Arity::Many)) {
                         cov.tolerate(viol(id, "registry_keeps:ended_stream", format!("step {si}: the bridge registry holds {many} stream entries, the reference has {live_many} live subscriptions")))?;
@@ -575,6 +609,7 @@ pub fn run_scenario_on(scn: &Scenario, sel: HostSel, ck: &Checks, cov: &mut Cov)
         obs_all: vec![],
         boundaries: vec![],
         sticky_reported: false,
+        renders_seen: 0,
         reap_slack: false,
         defer_drops: scn.defer_drops,
         bridge_dups: scn.bridge_dups,
